@@ -14,6 +14,7 @@ import Tea.VT.Ops
 import Tea.VT.Term
 import Tea.Render.Model
 import Tea.Render.Program
+import Tea.Render.Tty
 import Tea.Render.Fps
 import Tea.Runtime.Pipeline
 import Tea.Runtime.Sequence
